@@ -11,7 +11,7 @@ SomeEachForm == \A h \in HdrForms : \E c \in CaseSet : ClientHdr(c) = h
 SomeAccepted == \E c \in CaseSet : InScope(c) /\ Expected(c).accepted
 SomeOutOfScopeRejected == \E c \in CaseSet : ~InScope(c) /\ ~Expected(c).accepted
 
-ASSUME B64AlwaysAccepted /\ EncodeIffNeeded
+ASSUME B64AlwaysAccepted /\ EncodeIffNeeded /\ (\A c \in CaseSet : OwnValues(c))
 ASSUME SomeEachForm /\ SomeAccepted /\ SomeOutOfScopeRejected
 ASSUME PrintT(ToJson([cases |-> Cardinality(CaseSet), inscope |-> Cardinality({c \in CaseSet : InScope(c)}),
                       leads |-> Cardinality(Leads), leadvals |-> SetToSeq({c.val : c \in Leads})]))
